@@ -20,8 +20,12 @@ ASSUMPTIONS = [
     "local matrices come from BasisSet.op_mat (their correctness is C16's business)",
     "every non-dummy basis set has nbas >= 2: TTNO.todense squeezes size-1 axes, so a one-state physical set cannot be "
     "addressed by todense(order) (limit of the observable, not judged)",
-    "absolute tolerance as in C01, T = sum_k ||term_k||_F: graph algorithms 1e-12*T; qr 1e-9*sqrt(n+1)*sum_k (c_max/|c_k|)*||term_k||_F "
-    "(the QR variant drops coefficients below 1e-10*|r_00| by design); pairwise / chain comparisons use the sum of the two tolerances",
+    "absolute tolerances, n terms, T = sum_k ||term_k||_F: graph algorithms 1e-12*T as in C01; qr (n_nodes)*1e-10*sqrt(n+1)*c_max*n*P with "
+    "P = prod_sites max_k ||local operator of term k||_F: each of the n_nodes QR steps drops coefficients below 1e-10*|r_00| by design, and they "
+    "multiply products of the left part of one term with the right part of another (C01's bound with sum_k ||O_k|| in place of n*P was reached "
+    "to 75 % by one tree in 4000 calibration cases; both ratios are reported under worst_observed); in about 1 % of the cases (huge local norms, "
+    "e.g. x^4 at omega=0.013) the qr bound exceeds 1e-3 of the operator norm (counter qr-tol-above-1e-3-of-ref) - the graph algorithms "
+    "stay tight there; pairwise / chain comparisons use the sum of the two tolerances",
     "prod(d) <= 1024 (quick: 512), <= 40 terms; uint16 table limits out of reach",
     "complex factors or complex-typed local matrices: the TTNO asserts 'complex operator not supported yet' (documented refusal); "
     "the class is generated on purpose and must be refused that way or give the correct operator",
@@ -263,7 +267,23 @@ def run_case(ctx):
     cmax = max(facs)
     T = sum(norms) + 1e-300
     S = sum(n * cmax / f for n, f in zip(norms, facs)) + 1e-300
-    tol_abs = {"Hopcroft-Karp": 1e-12 * T, "Hungarian": 1e-12 * T, "qr": 1e-9 * np.sqrt(len(facs) + 1) * S}
+    # QR: every decomposition step (one per node) drops coefficients below 1e-10*|r_00| whatever operator they
+    # multiply; that operator is a product (left part of one term) x (right part of another), so its Frobenius norm is
+    # bounded by P = prod_sites max_k ||local operator of term k on the site||_F (identity: sqrt(d)), and |r_00| by
+    # sqrt(n+1)*c_max.  C01's bound (S in place of n*P) was reached to 75 % by a tree in calibration.
+    site_max = [float(np.sqrt(b.nbas)) for b in basis]
+    for t in nz_terms:
+        for s_, items in dense.site_groups(t, dof2site).items():
+            site_max[s_] = max(site_max[s_], float(np.linalg.norm(dense.local_matrix(basis[s_], items))))
+    P = float(np.prod(site_max))
+    qr_step = 1e-10 * np.sqrt(len(facs) + 1) * max(cmax * len(facs) * P, S)     # n*P*c_max >= S by construction
+
+    def tol_of(algo, n_steps):
+        if algo == "qr":
+            return qr_step * max(n_steps, 1)
+        return 1e-12 * T
+
+    tol_chain = {algo: tol_of(algo, len(basis)) for algo in ALGOS}
     cancelled = ref_norm <= 1e-12 * max(1.0, cmax)
 
     # ---- the tree constructors keep every basis set exactly once --------------------------------------
@@ -301,7 +321,7 @@ def run_case(ctx):
                     ctx.refuse(f"TTNO(complex class): {type(e).__name__}@{_innermost_repo_frame(e)}: {str(e)[:60]}")
                     continue
                 ctx.count("complex-accepted")
-                ctx.close(got, ref, 2 * tol_abs[algo], f"complex-operator-silently-wrong|{algo}", scale=1.0,
+                ctx.close(got, ref, 2 * tol_of(algo, len(tree.node_list)), f"complex-operator-silently-wrong|{algo}", scale=1.0,
                           kind=kind, ref_norm=ref_norm, ref_imag_norm=float(np.linalg.norm(np.imag(ref))))
         return
 
@@ -338,17 +358,23 @@ def run_case(ctx):
                 continue
             ctx.count("oracle")
             ctx.evaluations += 1
-            ok = ctx.close(got, ref, tol_abs[algo], f"ttno-dense-mismatch|{algo}|{kind}", scale=1.0,
+            tol = tol_of(algo, len(tree.node_list))
+            ok = ctx.close(got, ref, tol, f"ttno-dense-mismatch|{algo}|{kind}", scale=1.0,
                            bond_dims=bond_dims, ref_norm=ref_norm, shape=desc["shape"], features=feats)
             if got.shape == ref.shape:
-                ctx.metric_max(f"err_over_tol:{algo}", float(np.linalg.norm(got - ref)) / tol_abs[algo])
+                ctx.metric_max(f"err_over_tol:{algo}", float(np.linalg.norm(got - ref)) / tol)
+                if algo == "qr":
+                    ctx.metric_max("err_over_c01_tol:qr", float(np.linalg.norm(got - ref)) / (1e-9 * np.sqrt(len(facs) + 1) * S))
+                    if ref_norm > 0:
+                        ctx.metric_max("qr_tol_over_ref_norm(log10)", float(np.log10(tol / ref_norm)))
+                        ctx.count("qr-tol-below-1e-3-of-ref" if tol < 1e-3 * ref_norm else "qr-tol-above-1e-3-of-ref")
             ctx.check(not np.iscomplexobj(got) or float(np.linalg.norm(np.imag(got))) == 0.0,
                       f"ttno-real-class-complex-result|{algo}")
             if ok:
-                results[algo].append((kind, key, got))
+                results[algo].append((kind, key, got, tol))
             if algo in chain and got.shape == chain[algo].shape:
                 ctx.count("vs-mpo")
-                ctx.close(got, chain[algo], 2 * tol_abs[algo], f"ttno-vs-chain-mpo|{algo}|{kind}", scale=1.0,
+                ctx.close(got, chain[algo], tol + tol_chain[algo], f"ttno-vs-chain-mpo|{algo}|{kind}", scale=1.0,
                           shape=desc["shape"])
             if structured and distinct_terms >= 3 and max(bond_dims) >= 2:
                 ctx.nontrivial({"shape": key, "terms": sorted(map(str, nz_terms)), "algo": algo})
@@ -385,7 +411,8 @@ def run_case(ctx):
                     continue
                 ctx.count("oracle")
                 ctx.evaluations += 1
-                ctx.close(got, want, tol_abs[algo] * np.sqrt(dim), f"ttno-dense-mismatch|{algo}|aux-space", scale=1.0,
+                ctx.close(got, want, tol_of(algo, len(atree.node_list)) * np.sqrt(dim),
+                          f"ttno-dense-mismatch|{algo}|aux-space", scale=1.0,
                           bond_dims=bond_dims, shape=adesc["shape"], base_kind=kind0)
                 if distinct_terms >= 3 and max(bond_dims) >= 2:
                     ctx.nontrivial({"shape": akey, "terms": sorted(map(str, nz_terms)), "algo": algo})
@@ -397,7 +424,8 @@ def run_case(ctx):
             for j in range(i + 1, len(lst)):
                 ctx.count("pairwise")
                 ki, kj = sorted([lst[i][0], lst[j][0]])
-                ctx.close(lst[i][2], lst[j][2], 2 * tol_abs[algo], f"topology-disagreement|{algo}|{ki}|{kj}", scale=1.0)
+                ctx.close(lst[i][2], lst[j][2], lst[i][3] + lst[j][3], f"topology-disagreement|{algo}|{ki}|{kj}",
+                          scale=1.0)
     # the algorithms agree on one tree (implied by the absolute check; counted only)
     if all(len(results[a]) == len(chosen) for a in ALGOS):
         ctx.count("differential")
